@@ -703,3 +703,50 @@ def mapping_dropped_history():
     r0 = project([st("Doc", [("id", P("Uuid")), ("title", P("String"))]), fn("get_doc", [], P("Doc"))], mappings={"Uuid": "string"})
     r1 = project([st("Doc", [("id", P("i32")), ("title", P("String"))]), fn("get_doc", [], P("Doc"))])
     return [r0, r1]
+
+
+# ----------------------------------------------------------------------------- count relations between collections
+
+EXTERNAL_MAPPED = [("PathBuf", "string"), ("Uuid", "string"), ("Url", "string"), ("Decimal", "number"), ("NaiveDate", "string"),
+                   ("Duration", "number")]
+
+
+def mapped_count_cases():
+    """COUNT relations between the collections of the type collector: k = 2..6 distinct type-mapped external names
+    (PathBuf, Uuid, Url, ...) directly in command signatures and FEW structs - one command-used struct on top of a chain
+    of nested-only types of length 2..4 (bottom: struct or enum), no error struct, no event-only struct. The number of
+    custom names in the collector's worklist that are no discovered structs exceeds the number of discovered structs
+    not reachable from commands (0) by k. Sites of the mapped names: parameters of the command that uses the struct,
+    parameters of separate commands, returns / Option / Vec positions. Run in several fresh processes (hash order
+    decides where the struct sits in the worklist)."""
+    out = []
+    for k in range(2, 7):
+        for depth in (2, 3, 4):
+            for site in ("same-cmd-params", "own-cmds", "returns-and-containers"):
+                for bottom_enum in (False, True):
+                    if bottom_enum and site != "own-cmds":
+                        continue
+                    mapped = EXTERNAL_MAPPED[:k]
+                    chain = ["Document", "Meta", "Tag", "Label", "Tone"][:depth + 1]
+                    items = []
+                    for i, nm in enumerate(chain):
+                        if i == len(chain) - 1:
+                            items.append(en(nm) if bottom_enum else st(nm, [("text", P("String"))]))
+                        else:
+                            ctx = [P(chain[i + 1]), P("Vec", P(chain[i + 1])), P("Option", P(chain[i + 1]))][(i + k) % 3]
+                            items.append(st(nm, [("id", P("i32")), ("next", ctx)]))
+                    if site == "same-cmd-params":
+                        items.append(fn("save_document", [("doc", P("Document"))] + [("a%d" % i, P(n)) for i, (n, _) in enumerate(mapped)], None))
+                    elif site == "own-cmds":
+                        items.append(fn("load_document", [], P("Document")))
+                        for i, (n, _) in enumerate(mapped):
+                            items.append(fn("touch_%d" % i, [("v", P(n))], None))
+                    else:
+                        items.append(fn("find_document", [("id", P("i32"))], P("Option", P("Document"))))
+                        for i, (n, _) in enumerate(mapped):
+                            r = [P(n), P("Vec", P(n)), P("Result", P(n), P("String")), P("Option", P(n))][i % 4]
+                            items.append(fn("probe_%d" % i, [], r))
+                    case = project(items)
+                    set_mappings(case, dict(mapped))
+                    out.append(("mappedcount/k%d/chain%d/%s/%s" % (k, depth, site, "enum" if bottom_enum else "struct"), case))
+    return out
